@@ -220,6 +220,9 @@ def optAccParse : Option Acc → Acc × Bool
 
 end Go
 
+/-- the model's state as a store -/
+def storeOf (s : Core) : GStore := { params := s.params, seq := s.views.length, views := s.views }
+
 namespace Go
 /-- `types.DefaultGenesis()` -/
 def defaultGenesis : GenesisG := { params := Params.default, auctions := [], allowed := [], bids := [], vqs := [] }
